@@ -16,6 +16,7 @@ type C14 struct {
 	n int
 
 	preOwner  map[string]string
+	preTopN   map[string]uint32
 	preCons   map[string]*world.ConsObs
 	preVal    map[string]map[string]string // consumer -> validator name -> "optedin|key|rate"
 	preParams string
@@ -47,12 +48,14 @@ func (m *C14) valState(w *world.World, co *world.ConsObs) map[string]string {
 func (m *C14) snapshot(w *world.World) {
 	ctx := w.P.Ctx()
 	m.preOwner = map[string]string{}
+	m.preTopN = map[string]uint32{}
 	m.preCons = map[string]*world.ConsObs{}
 	m.preVal = map[string]map[string]string{}
 	for _, id := range w.ConsumerIDs() {
 		co := w.ObserveConsumer(id)
 		m.preCons[id] = &co
 		m.preOwner[id] = co.Owner
+		m.preTopN[id] = co.Shaping.Top_N
 		m.preVal[id] = m.valState(w, &co)
 	}
 	p := w.P.PApp.ProviderKeeper.GetParams(ctx)
@@ -205,6 +208,23 @@ func (m *C14) After(w *world.World, a *world.Action, r *world.StepResult) *Viola
 			if co.Shaping.Top_N < 50 || co.Shaping.Top_N > 100 {
 				return violf(P, "topn-range", "consumer %s has Top-N %d outside 50..100", id, co.Shaping.Top_N)
 			}
+		}
+		// a Top-N value appears or changes only through an executed governance proposal on that consumer: users
+		// (whose messages are plain transactions) create and control opt-in consumers only
+		if co.Shaping.Top_N != 0 && co.Shaping.Top_N != m.preTopN[id] {
+			byGov := false
+			for _, g := range r.Gov {
+				if g.Executed && g.Action.Consumer == id && g.Action.Kind == world.KUpdateConsumer {
+					byGov = true
+				}
+				if _, existed := m.preOwner[id]; !existed && g.Executed && g.Action.Kind == world.KCreateConsumer {
+					byGov = true
+				}
+			}
+			if !byGov {
+				return violf(P, "topn-without-governance", "consumer %s got Top-N %d (was %d) in block %d without an executed governance proposal for it", id, co.Shaping.Top_N, m.preTopN[id], r.Block.Height)
+			}
+			w.Label("topn-set-by-governance")
 		}
 		preOwner, existed := m.preOwner[id]
 		if existed && preOwner != co.Owner {
